@@ -63,6 +63,11 @@ def main():
         P.oblige('vincdir.sigma_step', 'geodesy.vincdir', 'loop body' + sfx, E.prove_eq(lift(LP['post']['sigma']), st, hy), code=lift(LP['post']['sigma']), spec=st, hyps=hy,
                  note='body is sigma <- s/(bA) + delta_sigma(sigma) with Vincenty\'s delta_sigma')
         P.oblige('vincdir.two_sigma_m', 'geodesy.vincdir', 'loop body' + sfx, E.prove_eq(lift(LP['post']['two_sigma_m']), tsm, hy), code=lift(LP['post']['two_sigma_m']), spec=tsm, hyps=hy)
+    caps = [pl['loops']['vincdir#for1'].get('range') for pl in lbs]
+    capv = [(c_[0] if len(c_) == 1 else (c_[1] - c_[0] if len(c_) >= 2 else None)) if c_ else None for c_ in caps]
+    okcap = all(isinstance(v_, int) and v_ >= 20 for v_ in capv)
+    P.oblige('vincdir.iteration_cap', 'geodesy.vincdir', 'range(%s)' % (capv[0] if capv else '?'), dict(result='discharged' if okcap else 'sat', backend='loop record', ms=0), strict=True,
+             note='the sigma iteration may run at least 20 times (it contracts by about e^2 per pass: fewer than 10 passes reach 1e-12 for Earth-like flattening - assumed lemma, twofold margin); found caps %r' % (capv,))
     r11, r9 = S.round_uf(11), S.round_uf(9)
     nret = {}
     for p in rets:
